@@ -820,7 +820,8 @@ def main(tier, replay=None):
         jobs.append(((2, rng.choice([2, 2, 3]), None), rng.getrandbits(32), 'rep_chain'))
         jobs.append(((3, rng.choice([2, 2, 3, 4]), None), rng.getrandbits(32), 'rep_blk'))
         jobs.append(((rng.choice([2, 3]), rng.choice([2, 2, 3]), None), rng.getrandbits(32), 'kill_rewrite'))
-        jobs.append(((rng.choice([2, 3]), rng.choice([2, 2, 3]), None), rng.getrandbits(32), 'rehash'))
+        for _ in range(2):
+            jobs.append(((rng.choice([2, 3]), rng.choice([2, 2, 3]), None), rng.getrandbits(32), 'rehash'))
         jobs.append(((rng.choice([2, 3]), rng.choice([1, 2, 2]), None), rng.getrandbits(32), 'fragment'))
 
     def one(job):
@@ -840,7 +841,7 @@ def main(tier, replay=None):
             if len(samples) < 4:
                 samples.append({'geom': H.geom, 'history': [o for o in H.log if o[0] not in ('write',)][:12]})
     chk.cov.update({'evaluations': tot.get('cmds', 0), 'distinct_nontrivial': nh,
-                    'rule': 'corpus/C05 (the three known findings) + %d generated histories: tree, clean sync, 1-3 rounds of (rewrites same/other size, deletes incl. whole stripes, additions; then one of: full sync, -B/-S partial sync, --test-kill-after-sync, autosave+kill, --test-run touch/rm of a file during the sync, shim pread EIO), copies and moves to other disks (copy detection), optional unsynced changes, damage (files removed / disks wiped / truncation / flips in hashed blocks / parity deleted, garbage, truncated, zeroed), optional scrub, fix with filters none/-m/-d/-f/-m -d/-e; judge = version store + before/after snapshot; plus %d + %d + %d histories from three templates: two aimed at copy-detected (REP) blocks in stripes the sync did not reach, one at a file rewritten between a sync killed after its parity update and a sync that skips its stripes; non-trivial = histories' % (nh, nt, nt, nt),
+                    'rule': 'corpus/C05 (the three known findings) + %d generated histories: tree, clean sync, 1-3 rounds of (rewrites same/other size, deletes incl. whole stripes, additions; then one of: full sync, -B/-S partial sync, --test-kill-after-sync, autosave+kill, --test-run touch/rm of a file during the sync, shim pread EIO), copies and moves to other disks (copy detection), optional unsynced changes, damage (files removed / disks wiped / truncation / flips in hashed blocks / parity deleted, garbage, truncated, zeroed), optional scrub, fix with filters none/-m/-d/-f/-m -d/-e; judge = version store + before/after snapshot; plus %d + %d + %d histories from three templates: two aimed at copy-detected (REP) blocks in stripes the sync did not reach, one at a file rewritten between a sync killed after its parity update and a sync that skips its stripes; plus %d histories with a hash migration in progress (murmur3 sync, rehash to spooky2, optional partial scrub/sync, rewrites + partial/killed sync + loss with a spare level + fix; oracle only) and %d with a file fragmented around surviving files, silent damage in several fragments, scrub, fix -e/-b/plain; non-trivial = histories' % (nh, nt, nt, nt, 2 * nt, nt),
                     'files_judged': tot.get('files_judged', 0), 'files_reported_recovered': tot.get('recovered', 0), 'files_reported_unrecoverable': tot.get('reported_unrecoverable', 0),
                     'wrong_files_attributed_to_known_findings': tot.get('known', 0), 'fix_runs_replayed_by_model': tot.get('model', 0),
                     'traces_validated_against_impl': tot.get('model', 0), 'corpus': reproduced})
